@@ -12,24 +12,35 @@
 #include <cstdlib>
 #include <cstring>
 
+extern "C" { volatile int vsim_race_flag = 0; }
 namespace vsim {
 namespace {
-constexpr int MAXT = 64;
+constexpr int MAXT = 128;
 enum St { FREE = 0, RUN, BLOCKED, PARKED, DONE };
 struct Th {
   int id; int fw; St st; const void* on; uint64_t wake_at; bool timed_out; bool joined;
-  pthread_t pt; void (*fn)(void*); void* arg;
+  void (*fn)(void*); void* arg;
   // spin detection
   struct { const void* obj; uint64_t val; } seen[4]; int nseen; uint64_t epoch_mark; int spin;
   int prio;
 };
 Th ths[MAXT];
 int nth = 0;
+// Real pthreads are pooled and reused for successive simulated threads (within and across runs):
+// creating and destroying ~10^5 kernel threads per second is what limited throughput in this VM
+// (16 concurrent driver processes ran 13-35x slower than one).  Assignment is LIFO and therefore a
+// deterministic function of the run.  Consequence, stated in DESIGN.md: thread_local state of the code
+// under test survives from one simulated thread to the next one served by the same pthread.
+struct Worker { pthread_t pt; int start; Th* cur; int idx; };
+Worker workers[MAXT];
+int nworkers = 0;
+int freelist[MAXT];
+int nfree = 0;
 thread_local int tl_id = -1;
 volatile bool g_on = false;
 int n_run = 0;
 Config cfg;
-uint64_t rng_s, opp, nseq, thash, write_epoch, noprog, now;
+uint64_t rng_s, opp, nseq, thash, write_epoch, noprog, now, bb_total;
 Stats st;
 // NOTE: no std:: templates in this file.  Template instantiations are COMDAT and the linker may pick
 // the copy compiled with coverage/TSan instrumentation from a harness TU, which would re-enter the
@@ -143,12 +154,13 @@ void switch_to(int next) {
   if (next == me) return;
   st.switches++;
   mix(0x5157000000000000ULL ^ (uint64_t)next);
+  bool wait = ths[me].st != DONE;   // read before the baton leaves: afterwards this slot is not ours
+  int* myw = &ths[me].fw;
   fpost(&ths[next].fw);
-  if (ths[me].st != DONE) fwait(&ths[me].fw);
+  if (wait) fwait(myw);
 }
 // choose who runs next; opp already incremented by the caller
 void sched() {
-  if (cfg.opp_cap && opp > cfg.opp_cap) fail("stepcap", "opportunity cap exceeded");
   int c[MAXT];
   int n = runnable(c);
   if (!n) n = recover(c);
@@ -172,20 +184,33 @@ void sched() {
   if (next != dflt) rec.push({opp, next});
   switch_to(next);
 }
-void* tramp(void* p) {
-  Th* t = (Th*)p;
-  tl_id = t->id;
-  fwait(&t->fw);
-  t->fn(t->arg);
-  // exit: no repo code runs on this thread after this line
-  nseq++; st.points++; st.kind_count[K_EXIT]++;
-  mix(((uint64_t)t->id << 56) ^ ((uint64_t)K_EXIT << 48));
-  logev(K_EXIT, nullptr, 0);
-  set_state(*t, DONE);
-  noprog = 0;
-  wake_all(t);
-  opp++;
-  sched();
+extern "C" void __tsan_acquire(void*) __attribute__((weak));
+extern "C" void __tsan_release(void*) __attribute__((weak));
+inline void ts_acq(void* p) { if (__tsan_acquire) __tsan_acquire(p); }
+inline void ts_rel(void* p) { if (__tsan_release) __tsan_release(p); }
+void* worker_main(void* p) {
+  Worker* w = (Worker*)p;
+  for (;;) {
+    fwait(&w->start);
+    Th* t = w->cur;
+    tl_id = t->id;
+    fwait(&t->fw);            // first time this simulated thread is scheduled
+    ts_acq(t);                // spawn happens-before the thread's first action
+    t->fn(t->arg);
+    // exit: no repo code runs on behalf of this simulated thread after this line
+    nseq++; st.points++; st.kind_count[K_EXIT]++;
+    mix(((uint64_t)t->id << 56) ^ ((uint64_t)K_EXIT << 48));
+    logev(K_EXIT, nullptr, 0);
+    ts_rel((char*)t + 1);     // everything the thread did happens-before the return of join()
+    set_state(*t, DONE);
+    noprog = 0;
+    wake_all(t);
+    freelist[nfree++] = w->idx;   // while still holding the baton
+    tl_id = t->id;
+    opp++;
+    sched();                  // hands the baton over and does not wait (state DONE)
+    tl_id = -1;
+  }
   return nullptr;
 }
 // preemption at a basic-block edge / memory access: returns the thread to switch to, or -1.
@@ -249,7 +274,7 @@ void begin(const Config& c) {
   rng_s = c.seed * 0x9E3779B97F4A7C15ULL + 0x632BE59BD9B4E019ULL;
   if (!rng_s) rng_s = 1;
   for (int i = 0; i < 8; i++) rnd();
-  opp = nseq = write_epoch = noprog = now = 0; nev = 0;
+  opp = nseq = write_epoch = noprog = now = bb_total = 0; nev = 0;
   thash = 0xcbf29ce484222325ULL;
   memset(&st, 0, sizeof st);
   rec.clear(); fulllog.clear(); ids.clear();
@@ -266,6 +291,7 @@ void begin(const Config& c) {
   g_on = true;
 }
 void end() {
+  if (vsim_race_flag) { vsim_race_flag = 0; fail("race", "ThreadSanitizer reported a data race (report on stderr of this run)"); }
   for (int i = 1; i < nth; i++) {
     if (ths[i].st != DONE || !ths[i].joined) {
       char b[128]; snprintf(b, sizeof b, "thread t%d still alive (state %d) at end of run", i, (int)ths[i].st);
@@ -279,10 +305,12 @@ void end() {
 
 void point(Kind k, const void* obj, long v) {
   if (!active()) return;
+  if (vsim_race_flag) { vsim_race_flag = 0; fail("race", "ThreadSanitizer reported a data race (report on stderr of this run)"); }
   nseq++; st.points++; st.kind_count[k]++;
   mix(((uint64_t)tl_id << 56) ^ ((uint64_t)k << 48) ^ (uint64_t)v);
   logev(k, obj, v);
   opp++;
+  if (cfg.opp_cap && opp > cfg.opp_cap) fail("livelock", "run exceeded the scheduling-opportunity cap: some thread keeps running without the run ever finishing");
   if (n_run < 2 && ths[tl_id].st == RUN) return;  // nothing to decide (same in record and replay)
   sched();
 }
@@ -376,16 +404,30 @@ int spawn(void (*fn)(void*), void* arg) {
   nth++;
   set_state(*t, RUN);
   noprog = 0;
-  pthread_attr_t a; pthread_attr_init(&a); pthread_attr_setstacksize(&a, 16u << 20);
-  if (pthread_create(&t->pt, &a, tramp, t)) fail("harness", "pthread_create failed");
-  pthread_attr_destroy(&a);
+  ts_rel(t);
+  if (nfree) {
+    Worker* w = &workers[freelist[--nfree]];
+    w->cur = t;
+    fpost(&w->start);
+  } else {
+    if (nworkers >= MAXT) fail("harness", "too many worker pthreads");
+    Worker* w = &workers[nworkers];
+    w->idx = nworkers++; w->start = 0; w->cur = t;
+    static size_t stk = [] { const char* e = getenv("VSIM_STACK_KB"); return (size_t)(e ? atol(e) : 4096) << 10; }();
+    pthread_attr_t a; pthread_attr_init(&a); pthread_attr_setstacksize(&a, stk);
+    pthread_attr_setdetachstate(&a, PTHREAD_CREATE_DETACHED);
+    if (pthread_create(&w->pt, &a, worker_main, w)) fail("harness", "pthread_create failed");
+    pthread_attr_destroy(&a);
+    fpost(&w->start);
+  }
   point(K_SPAWN, nullptr, t->id);
   return t->id;
 }
 void join(int tid) {
   point(K_JOIN, nullptr, tid);
   while (ths[tid].st != DONE) block_on(&ths[tid]);
-  if (!ths[tid].joined) { pthread_join(ths[tid].pt, nullptr); ths[tid].joined = true; }
+  ths[tid].joined = true;
+  ts_acq((char*)&ths[tid] + 1);
 }
 void yield_now() { point(K_YIELD, nullptr, 0); }
 void sleep_ns(uint64_t ns) {
@@ -449,9 +491,12 @@ void __sanitizer_cov_trace_pc_guard_init(uint32_t* start, uint32_t* stop) {
 }
 void __sanitizer_cov_trace_pc_guard(uint32_t* g) {
   using namespace vsim;
-  if (!g_on || n_run < 2 || tl_id < 0) return;
+  if (!g_on || tl_id < 0) return;
+  if (cfg.opp_cap && ++bb_total > cfg.opp_cap * 16) fail("livelock", "run executed an unbounded number of basic blocks without finishing");
+  if (n_run < 2) return;
   if (!cfg.bb_ppm && cfg.policy != P_PCT) return;   // same gating in record and replay
   opp++;
+  if (cfg.opp_cap && opp > cfg.opp_cap) fail("livelock", "run exceeded the scheduling-opportunity cap: some thread keeps running without the run ever finishing");
   int next = preempt_target(cfg.bb_ppm);
   if (next < 0 || next == tl_id) return;
   do_preempt(next, (long)(g - g_guard0), &st.preempt_bb);
